@@ -249,6 +249,11 @@ def run(repo: Repo, chk: Check, thorough: bool = False) -> None:
                 continue
             n_pt += 1
             kw = next((k.value for k in c.keywords if k.arg == 'lineno'), c.args[2] if len(c.args) > 2 else None)
+            if isinstance(kw, ast.Name):            # a named intermediate: `lineno = field.lineno`
+                from ..util import values_of as _vo16
+                vals_ = _vo16(f, kw.id)
+                if len(vals_) == 1:
+                    kw = vals_[0]
             ok = isinstance(kw, ast.Attribute) and kw.attr == 'lineno' and isinstance(kw.value, ast.Name) and kw.value.id == loop.target.id
             chk.ob('R16.4', f'{f.qn} :: a type field keeps the line of its field', ok, f'lineno={norm(kw)}' if ok else
                    f'`{norm(c)[:70]}` drops the field\'s line: an unresolvable name in @type/@rtype is reported at the first line of the docstring '
